@@ -1,1 +1,89 @@
-From CMinx Require Import Base.Str.
+(* Properties/C10.v -- Variable and option entries state type, default and help correctly.
+   Only theorem statements; proofs are in Proofs/EntryFacts.v (and ParserFacts.v).  Spec:
+   Spec/EntrySpec.v (set_view, option_view, value_as_written). *)
+From Coq Require Import String List NArith.
+From CMinx Require Import Base.Str Model.Lexer Model.Parser Model.Writer Model.DocTypes
+     Model.Aggregator Spec.EntrySpec Gen.SourceLiterals Proofs.LexerFacts Proofs.ParserFacts
+     Proofs.EntryFacts Proofs.LiteralsMatch.
+Import ListNotations.
+
+(* set(): UNSET / str / list by the number of values; default = the value as written, a quoted
+   value without its surrounding quotes, several values joined by single spaces in order *)
+Theorem C10_process_set_spec :
+  forall c doc docd st,
+    process_set c doc docd st
+    = match set_view (singles c) with
+      | None => Ok st
+      | Some (n, ty, v) => Ok (append (EVariable n doc ty v) docd st)
+      end.
+Proof. exact process_set_spec. Qed.
+Print Assumptions C10_process_set_spec.
+
+Theorem C10_set_view_shapes :
+  forall n v w vals,
+    set_view [n] = Some (n, VUnset, None)
+    /\ set_view [n; dq :: v ++ [dq]] = Some (n, VString, Some v)
+    /\ set_view (n :: v :: w :: vals) = Some (n, VList, Some (join (s" ") (v :: w :: vals))).
+Proof. exact set_view_shapes. Qed.
+Print Assumptions C10_set_view_shapes.
+
+Theorem C10_quoted_value_unquoted : forall body, unquote (dq :: body ++ [dq]) = Some body.
+Proof. exact unquote_quoted. Qed.
+Print Assumptions C10_quoted_value_unquoted.
+
+Theorem C10_value_as_written : forall v, unquote v = Some (value_as_written v).
+Proof. exact unquote_spec. Qed.
+Print Assumptions C10_value_as_written.
+
+(* rendering: the data directive with exactly these fields in this order *)
+Theorem C10_render_variable_fields :
+  forall n doc ty v,
+    render_entry (EVariable n doc ty v)
+    = Dir (s"data") [n] []
+          [Para doc;
+           Field (s"Default value") (match v with Some x => x | None => s"None" end);
+           Field (s"type") (match ty with VString => s"str" | VList => s"list" | VUnset => s"UNSET" end)].
+Proof. exact render_variable_fields. Qed.
+Print Assumptions C10_render_variable_fields.
+
+(* option(): name, help text, default or OFF, type bool, marked as a user-editable cache option *)
+Theorem C10_process_option_spec :
+  forall c doc docd st,
+    process_option c doc docd st
+    = match option_view (singles c) with
+      | None => st
+      | Some (n, h, _) => append (EOption n doc (option_value (singles c)) h) docd st
+      end.
+Proof. exact process_option_spec. Qed.
+Print Assumptions C10_process_option_spec.
+
+Theorem C10_render_option_default :
+  forall args n h v doc, option_view args = Some (n, h, v) ->
+    render_entry (EOption n doc (option_value args) h)
+    = Dir (s"data") [n] []
+          [Dir (s"note") [] [] [Para option_note];
+           Para doc;
+           Field (s"Help text") h;
+           Field (s"Default value") v;
+           Field (s"type") (s"bool")].
+Proof. exact render_option_default. Qed.
+Print Assumptions C10_render_option_default.
+
+(* every argument text the lexer and parser hand to the aggregator is non-empty *)
+Theorem C10_arg_texts_nonempty :
+  forall x ts f, lex x = LexOk ts -> parse ts = Some f ->
+  forall c, In c (cmds_of f) -> forall t, In t (singles c) -> t <> [].
+Proof. exact singles_texts_nonempty. Qed.
+Print Assumptions C10_arg_texts_nonempty.
+
+Theorem C10_source_literals_pinned :
+  get (s"DocumentationAggregator.process_set") aggregator_strings = [[nl]; F; s" "; [dq]; [dq]]
+  /\ geti (s"DocumentationAggregator.process_set") aggregator_ints = [1; 0; 1; 1; 1; 1; 1; 2; 0; 1; 1; 1].
+Proof. exact process_set_literals. Qed.
+Print Assumptions C10_source_literals_pinned.
+
+Theorem C10_doctype_literals_pinned :
+  get (s"VariableDocumentation.process") doctypes_strings
+  = [s"data"; F; s"Default value"; vartype_text VString; vartype_text VList; vartype_text VUnset; s"type"].
+Proof. exact variable_doc_literals. Qed.
+Print Assumptions C10_doctype_literals_pinned.
